@@ -102,7 +102,7 @@ theorem byteOf_testBit (f : Nat → Bool) (j : Nat) :
   unfold Khmer.byteOf
   rw [bitsToNat_testBit, List.getD_eq_getElem?_getD, List.getElem?_map]
   by_cases h : j < 8
-  · simp [List.getElem?_range h, h]
+  · simp [h]
   · simp [h]
 
 theorem bitsToNat_lt (l : List Bool) : Khmer.bitsToNat l < 2 ^ l.length := by
